@@ -114,6 +114,8 @@ class UnitDomain(Domain):
     def const(self, value, node):
         if value is None:
             return BOT
+        if isinstance(value, (int, float)) and not isinstance(value, bool) and value == 0:
+            return BOT  # zero is zero in every unit
         return PLAIN
 
     def fresh(self, kind, node):
@@ -135,20 +137,28 @@ class UnitDomain(Domain):
     def const_of(self, it, v, st):
         return _NOKEY
 
+    def load_global(self, it, r, node, st):
+        if r[1].name == "iodata.utils" and r[2] in UNIT_NAMES:
+            return V(frozenset([((r[2], 1),)]))
+        return it.load_const_global(r, node, st)
+
     # transfer
     def attr(self, it, base, name, node, st):
         o = it.obj(st, base)
         if o is not None and ("." + name) in o.slots:
             return o.slots["." + name]
         # data.<attr> of a marked parameter: the attribute becomes its own symbol
-        if any(len(m) == 1 and m[0][0].startswith("@") and m[0][1] == 1 and m[0][0].count(".") == 0 for m in base.tag):
-            root = next(iter(base.tag))[0][0]
+        roots = [m[0][0] for m in base.tag if len(m) == 1 and m[0][0].startswith("@") and m[0][1] == 1]
+        if roots:
+            root = roots[0]
             if root[1:] in self.marked_roots():
                 if name in ("shape", "size", "ndim", "dtype", "natom", "nbasis", "norb", "norba", "norbb", "kind", "title", "lot"):
                     return V(PLAIN)
                 return V(frozenset([(("@" + name, 1),)]))
         if name in ("shape", "size", "ndim", "dtype"):
             return V(PLAIN)
+        if o is not None and o.kind == "array":
+            return V(base.tag, base.ref)
         return V(base.tag)
 
     def marked_roots(self):
@@ -159,9 +169,16 @@ class UnitDomain(Domain):
 
     def subscript(self, it, base, index, const_key, node, st):
         o = it.obj(st, base)
+        if o is not None and o.kind == "array":
+            return V(base.tag, base.ref)  # views share the array object
         if o is not None:
             return None
         return V(base.tag)
+
+    def intercept_call(self, it, g, args, kwargs, node, st):
+        if g.qualname == "iodata.utils.volume":
+            return V(frozenset([(("volume", 1),)]))
+        return None
 
     def store_into_scalar(self, it, base, key, value, node, st):
         """arr[i] = v on an array value without heap object: weak update of the array's tag."""
@@ -173,6 +190,15 @@ class UnitDomain(Domain):
         return V(self.join(base.tag, vt), base.ref)
 
     def binop(self, it, op, l, r, node, st):
+        if isinstance(node, ast.AugAssign):
+            o = it.obj(st, l)
+            if o is not None and o.kind == "array":
+                # in-place arithmetic on a whole array: every element is updated
+                res = self.binop(it, op, V(self._deep(it, l, st)), r, None, st)
+                mo = it.mobj(st, l)
+                mo.elem = V(res.tag)
+                mo.slots = {}
+                return V(BOT, l.ref)
         lt, rt = self._deep(it, l, st), self._deep(it, r, st)
         if isinstance(op, (ast.Mult, ast.MatMult)):
             return V(tmul(lt, rt))
@@ -201,14 +227,18 @@ class UnitDomain(Domain):
             return V(lt or rt)
         return V(self.join(lt, rt))
 
-    def _deep(self, it, v, st):
-        """Tag of a value including the elements of a container object."""
+    def _deep(self, it, v, st, depth=3):
+        """Tag of a value including the elements of container objects (nested lists of numbers)."""
         o = it.obj(st, v)
-        if o is None or o.kind in ("func", "class", "module", "external", "obj"):
+        if o is None or o.kind in ("func", "class", "module", "external", "obj") or depth == 0:
             return v.tag
         t = v.tag
-        ev = it.iter_elem(v, None, st) if o.kind != "dict" else it.iter_elem_values(o, v, None, st)
-        return self.join(t, ev.tag) if ev is not None else t
+        parts = list(o.slots.values()) if o.kind != "dict" or True else []
+        if o.elem is not None:
+            parts.append(o.elem)
+        for sv in parts:
+            t = self.join(t, self._deep(it, sv, st, depth - 1))
+        return t
 
     def unaryop(self, it, op, v, node, st):
         return V(self._deep(it, v, st))
@@ -244,7 +274,7 @@ class UnitDomain(Domain):
             self.sinks.append((func, node, tags, [fr.func.qualname for fr in it.stack]))
             return V(PLAIN)
         if nm in FRESH_EXTERNALS:
-            return V(BOT)
+            return it.new(st, "array", node, tag=BOT)
         if nm in ("numpy.dot", "numpy.matmul", "numpy.einsum", "numpy.multiply", "numpy.outer", "numpy.inner", "numpy.tensordot", "numpy.cross"):
             aa = [a for a in args if not (it.obj(st, a) is None and a.tag == PLAIN and nm == "numpy.einsum")]
             if nm == "numpy.einsum":
@@ -293,11 +323,15 @@ class UnitDomain(Domain):
         if name == "join" and args:
             return V(self._deep(it, args[0], st) or PLAIN)
         if name == "format":
-            return self.format(it, list(args) + [v for k, v in kwargs.items() if k != "**"], node, st)
+            return self.format(it, list(args) + list(kwargs.values()), node, st)
         if name == "dot" and args:
             return V(tmul(self._deep(it, base, st), self._deep(it, args[0], st)))
         if name == "fill" and args and o is None:
             return V(BOT)
+        if o is not None and o.kind == "array":
+            if name in ("reshape", "ravel", "view", "transpose", "squeeze", "swapaxes"):
+                return V(base.tag, base.ref)
+            return V(self._deep(it, base, st))
         if o is not None:
             return None
         if name in PASS_METHODS:
